@@ -71,11 +71,16 @@ class C14(Property):
                 return dict(kind="config", cfg=CONFIGS[idx])
             return dict(kind="config", cfg=CONFIGS[i])
         cfg = dict(rnd.choice(CONFIGS))
-        while cfg["cls"] == "esri" and rnd.random() < 0.8:
+        while cfg["cls"] == "esri":
             cfg = dict(rnd.choice(CONFIGS))
+        if rnd.random() < 0.12:
+            cfg = dict(rnd.choice([c for c in CONFIGS if c["cls"] == "esri"]))
         ops = []
         for _ in range(rnd.randint(3, 10)):
             ops.append(rnd.choice(["read_shape", "read_size", "read_points", "copy", "deepcopy", "set_cells", "set_points", "read_all", "to_unstructured"]))
+        if cfg["cls"] == "esri":
+            # a refused change to a location the class does not support, in the middle of the history
+            ops.insert(rnd.randint(1, len(ops)), "set_points")
         return dict(kind="history", cfg=cfg, ops=ops)
 
     # ------------------------------------------------------------------ single configuration
@@ -203,6 +208,9 @@ class C14(Property):
                         return 0
                     except ValueError:
                         out.count("invalid_location_refused")
+                        if str(g.data_location).rsplit(".", maxsplit=1)[-1] != cur["location"]:
+                            out.viol("refused_location_change_took_effect", f"after the refused change the grid reports data_location {g.data_location}", cfg=cfg)
+                            return 0
                         continue
                 changed += cur["location"] != loc
                 g.data_location = loc
@@ -243,7 +251,7 @@ class C14(Property):
         return out
 
     def coverage_gaps(self, counters, tier):
-        need = ["configs_checked", "elements_checked", "cells_checked", "unstructured_casts", "history_steps", "histories_with_location_change", "histories_with_copies_and_location_change"]
+        need = ["configs_checked", "elements_checked", "cells_checked", "unstructured_casts", "history_steps", "histories_with_location_change", "histories_with_copies_and_location_change", "invalid_location_refused"]
         return [f"{k} never observed" for k in need if not counters.get(k)]
 
 
